@@ -155,6 +155,45 @@ Proof.
   split; [reflexivity|]. intros i Hi. assert (Ei : i = 0%nat \/ i = 1%nat) by (cbn in Hi; lia).
   destruct Ei as [-> | ->]; unfold gradR, dotR, exA, exb, exd; cbn; repeat split; intros; lra.
 Qed.
+(* the model executed AT THE REALS on this system (symbolic evaluation, every comparison decided by lra): the hypothesis
+   `fnnls ... = Ok (d, ExitCond, P)` of the KKT theorems is met, cold start and production warm start, and d = (1/2, 0) *)
+Example C05_ex_fnnls_cold_R :
+  exists d Pf, @fnnls ROps 3 exA exb 0 None = Ok (d, ExitCond, Pf) /\ nth 0 d 0 = / 2 /\ nth 1 d 0 = 0.
+Proof.
+  eexists. eexists. unfold fnnls, exA, exb. cbn [length]. unfold tolerance, ofNat. cbn [mul ofZ ROps Z.of_nat].
+  rexec. split; [reflexivity|]. cbn. split; lra.
+Qed.
+Example C05_ex_positive_only_warm_R :
+  exists d, @reconstruction_positive_only_x ROps 3 exA exb 0 true = Ok (d, ExitCond) /\ nth 0 d 0 = / 2 /\ nth 1 d 0 = 0.
+Proof.
+  eexists. unfold reconstruction_positive_only_x, fnnls, solve, exA, exb. cbn [length]. unfold tolerance, ofNat. cbn [mul ofZ ROps Z.of_nat].
+  rexec. split; [reflexivity|]. cbn. split; lra.
+Qed.
+(* forced zeros: one mapper with 2 parameters whose pixel 0 is an edge pixel; the reduced system is 2 s1 = -3 -> s = (0, 0) ... with b = (1, 3): s = (0, 3/2) *)
+Example C05_ex_forced_zero_R :
+  exists s, @reconstruction ROps 3 (mkset true false true false [] true) [@mkobj ROps 2 true [0%nat] []] exA [1; 3] 0 = Ok s
+            /\ nth 0 s 0 = 0 /\ nth 1 s 0 = 3 / 2.
+Proof.
+  eexists. unfold reconstruction, reconstruction_positive_only, reconstruction_positive_only_x, fnnls, exA.
+  cbn [use_positive_only_solver force_edge_pixels_to_zeros force_edge_image_pixels_to_zeros positive_only_uses_p_initial].
+  rexec. split; [reflexivity|]. cbn. split; lra.
+Qed.
+(* shapes for the mapped-data theorems: two objects with 2 and 1 parameters on 2 image pixels *)
+Example C05_ex_mapped_shapes :
+  let Bs := [[[1; 2]; [3; 4]]; [[5]; [6]]] : list (list (list R)) in
+  (forall B, In B Bs -> wfB 2 B) /\ length [1; -1; 2] = list_sum (widths Bs).
+Proof.
+  cbn. split; [|reflexivity]. intros B [<-|[<-|[]]]; split; try reflexivity; intros r [<-|[<-|[]]]; reflexivity.
+Qed.
+Example C05_ex_unique_shapes :
+  forall prow wrow len, In (prow, wrow, len) (combine (combine [[0; 1]; [1; -1]]%Z [[/ 2; / 2]; [1; 0]]) [2; 1]%nat) ->
+    forall p, (p < len)%nat -> (Z.to_nat (nth p prow 0%Z) < length [3; 4])%nat.
+Proof.
+  intros prow wrow len [E|[E|[]]] p Hp; inversion E; subst; cbn.
+  - destruct p as [|[|p]]; cbn; lia.
+  - destruct p as [|p]; cbn; lia.
+Qed.
+
 (* the executable model, run on the same system with exact rationals: cold and warm start leave through the loop condition *)
 Example C05_ex_model_cold :
   @fnnls QOps FUEL [[2; 1]; [1; 2]]%Q [1; -3]%Q (1 # 1000000000000000) None = Ok ([1 # 2; 0]%Q, ExitCond, [true; false]).
